@@ -76,24 +76,75 @@ def _call(payload):
         return {"harness_error": f"{funcname}({json.dumps(js(arg))[:300]}): {type(e).__name__}: {e}\n{traceback.format_exc()}"}
 
 
-_POOL = None
-
-
 def _replay_call(payload):
     modname, rp = payload
     mod = importlib.import_module(modname)
     return json.dumps(js(mod.replay(rp)), sort_keys=True)
 
 
+def _child(conn, fn, payload):
+    """Body of a forked worker: one task, result through its own pipe, then exit."""
+    try:
+        res = fn(payload)
+    except BaseException as e:  # noqa: BLE001
+        res = {"harness_error": f"worker raised {type(e).__name__}: {e}\n{traceback.format_exc()}"}
+    try:
+        conn.send(res)
+    finally:
+        conn.close()
+        os._exit(0)
+
+
+def _forked(fn, payloads, procs):
+    """Run ``fn(payload)`` for every payload, each in its OWN freshly forked process (at most
+    ``procs`` at a time), yielding results as they complete.  No shared queues or pool threads:
+    the parent is single-threaded when it forks, every child has a private pipe, and a child
+    that dies without an answer is reported instead of being waited for."""
+    from multiprocessing.connection import wait
+
+    ctx = mp.get_context("fork")
+    pending = list(payloads)
+    running = {}
+    try:
+        while pending or running:
+            while pending and len(running) < procs:
+                payload = pending.pop(0)
+                r, w = ctx.Pipe(duplex=False)
+                sys.stdout.flush()
+                sys.stderr.flush()
+                pr = ctx.Process(target=_child, args=(w, fn, payload), daemon=True)
+                pr.start()
+                w.close()
+                running[r] = pr
+            for conn in wait(list(running)):
+                pr = running.pop(conn)
+                try:
+                    res = conn.recv()
+                except (EOFError, OSError):
+                    res = {"harness_error": f"worker {pr.pid} exited without a result (exit code {pr.exitcode})"}
+                conn.close()
+                pr.join()
+                yield res
+    finally:
+        for conn, pr in running.items():
+            pr.terminate()
+            pr.join()
+            conn.close()
+
+
 def fresh_replay(mod, rp) -> str:
-    """Run ``mod.replay(rp)`` in a freshly forked child (same process state as a pool worker)."""
-    with mp.get_context("fork").Pool(1, maxtasksperchild=1) as pool:
-        return pool.apply(_replay_call, ((mod.__name__, rp),))
+    """Run ``mod.replay(rp)`` in a freshly forked child (same process state as a task worker)."""
+    (res,) = list(_forked(_replay_call, [(mod.__name__, rp)], 1))
+    if isinstance(res, dict) and "harness_error" in res:
+        raise HarnessError(res["harness_error"])
+    return res
 
 
 def pmap(modname: str, funcname: str, args: list, procs: int | None = None, chunksize: int = 1):
-    """Run ``modname.funcname(arg)`` for every arg, in worker processes; yields results."""
-    global _POOL
+    """Run ``modname.funcname(arg)`` for every arg, in worker processes; yields results.
+
+    One task per forked worker: process-global state leaked by the code under test cannot carry
+    over from one task to the next, so every task starts from the same process state."""
     procs = procs or int(os.environ.get("QV_PROCS", os.cpu_count() or 4))
     payloads = [(modname, funcname, a) for a in args]
     if procs <= 1 or not args:
@@ -103,11 +154,7 @@ def pmap(modname: str, funcname: str, args: list, procs: int | None = None, chun
                 raise HarnessError(r["harness_error"])
             yield r
         return
-    if _POOL is None:
-        # one task per forked worker: process-global state leaked by the code under test cannot
-        # carry over from one task to the next, so every task starts from the same process state
-        _POOL = mp.get_context("fork").Pool(procs, maxtasksperchild=1)
-    for r in _POOL.imap_unordered(_call, payloads, chunksize):
+    for r in _forked(_call, payloads, procs):
         if "harness_error" in r:
             raise HarnessError(r["harness_error"])
         yield r
@@ -133,12 +180,6 @@ def run_check(pid: str, tier: str) -> int:
     except HarnessError as e:
         print(f"HARNESS-ERROR property={pid}: {e}", flush=True)
         return 2
-    finally:
-        global _POOL
-        if _POOL is not None:
-            _POOL.close()
-            _POOL.join()
-            _POOL = None
     known = {f["signature"]: f for f in load_findings().get("findings", []) if f.get("property") == pid}
     by_sig: dict[str, list] = {}
     for v in rep.violations:
